@@ -19,120 +19,10 @@
    valid value and is therefore not a corruption (only the address carries a
    checksum): invariant Sane states that no emitted case lies in the accepted
    language of a different value.                                            *)
-EXTENDS Text, TLC, Json
-CONSTANT Thorough
+EXTENDS CorruptOps
 Bases == ndJsonDeserialize("bases.ndjson")
 NB == Len(Bases)
 
-\* ---- decomposition of the text form ---------------------------------------
-FixedHex == HashKinds \cup PrefixedKinds \cup {"Signature", "Address", "ChainIndex", "pol-pk", "pol-h", "pol-opaque"}
-PolName(kind) == IF kind = "pol-pk" THEN L_pk ELSE IF kind = "pol-h" THEN L_h ELSE L_opaque
-Pre(kind, v) ==
-  CASE kind \in PrefixedKinds -> L_ed25519
-    [] kind = "ChainIndex"    -> Dec(v.h) \o <<COLON, COLON>>
-    [] kind = "UnlockKey"     -> SpecText(v.alg) \o <<COLON>>
-    [] kind \in {"pol-pk", "pol-h", "pol-opaque"} -> PolName(kind) \o <<LP>> \o L_0x
-    [] OTHER -> <<>>
-HexPart(kind, v) ==
-  CASE kind = "Address"    -> HexOf(v.b) \o HexOf(v.ck)
-    [] kind = "ChainIndex" -> HexOf(v.id)
-    [] kind = "UnlockKey"  -> HexOf(v.key)
-    [] kind = "ProtocolVersion" -> <<>>
-    [] OTHER -> HexOf(v.b)
-Post(kind) == IF kind \in {"pol-pk", "pol-h", "pol-opaque"} THEN <<RP>> ELSE <<>>
-SpecKind(kind) == IF kind \in {"pol-pk", "pol-h", "pol-opaque"} THEN "SpendPolicy" ELSE kind
-Original(kind, v) ==
-  IF kind \in {"ProtocolVersion", "Specifier"} THEN PrintID(kind, v) ELSE Pre(kind, v) \o HexPart(kind, v) \o Post(kind)
-
-\* ---- replacement characters -------------------------------------------------
-HexRepl(c) == LET v == HexVal(Lower(c)) IN
-  IF Thorough THEN {HexDigit(x) : x \in 0..15}
-  ELSE {HexDigit((v + 1) % 16), HexDigit((v + 8) % 16), HexDigit(15 - v)}
-NonHex == IF Thorough THEN {103, 71, 32, 58, 111, 79, 108, 120, 45, 47, 64, 96, 0, 195}
-          ELSE {103, 71, 32, 58}
-AddrRepl(c) == (HexRepl(c) \cup {Upper(x) : x \in HexRepl(c) \cup {c}} \cup NonHex) \ {c}
-
-\* ---- operations: uniform records [o, i, c] -----------------------------------
-Op(o, i, c) == [o |-> o, i |-> i, c |-> c]
-Ends(n) == IF n = 0 THEN {} ELSE {1, n}
-Probe(n) == IF n = 0 THEN {} ELSE {1, (n + 1) \div 2, n}
-OpsFor(kind, v) ==
-  LET hx == HexPart(kind, v)  n == Len(hx) IN
-  IF kind = "ProtocolVersion" THEN {Op("pv", k, 0) : k \in 1..9}
-  ELSE IF kind = "Specifier" THEN {Op("sp", k, 0) : k \in 1..4}
-  ELSE
-    (IF kind = "Address"
-       THEN UNION {{Op("subst", i, c) : c \in AddrRepl(hx[i])} : i \in 1..n}
-            \cup {Op("swap", i, 0) : i \in {j \in 1..(n - 1) : hx[j] # hx[j + 1]}}
-       ELSE {Op("subst", i, c) : i \in Probe(n), c \in NonHex})
-    \cup {Op("upper", 0, 0)}
-    \cup {Op("del", i, 0) : i \in Ends(n)}
-    \cup {Op("ins", i, c) : i \in {1, n + 1}, c \in {48, 97}}
-    \cup (IF kind = "UnlockKey" THEN {}            \* a key has no fixed length: only odd lengths are wrong
-          ELSE {Op("del2", i, 0) : i \in Ends(n)} \cup {Op("ins2", i, c) : i \in {1, n + 1}, c \in {48, 97}}
-               \cup {Op("empty", 0, 0)})
-    \cup {Op("prefix", k, 0) : k \in 1..(IF kind = "ChainIndex" THEN 6 ELSE 4)}
-
-\* ---- the corrupted text ---------------------------------------------------
-TwoPow64 == <<49, 56, 52, 52, 54, 55, 52, 52, 48, 55, 51, 55, 48, 57, 53, 53, 49, 54, 49, 54>>  \* 18446744073709551616
-BadPrefix(kind, v, k) ==
-  LET pre == Pre(kind, v) IN
-  CASE kind \in PrefixedKinds ->
-         (CASE k = 1 -> <<>>                                             \* prefix missing
-            [] k = 2 -> Subst(pre, 7, 56)                               \* ed25518:
-            [] k = 3 -> SubSeq(pre, 1, 7)                               \* separator missing
-            [] k = 4 -> Subst(pre, 1, 69))                              \* Ed25519:
-    [] kind = "ChainIndex" ->
-         (CASE k = 1 -> Dec(v.h) \o <<COLON>>                           \* one colon
-            [] k = 2 -> <<COLON, COLON>>                                \* no height
-            [] k = 3 -> Dec(v.h) \o <<97, COLON, COLON>>                \* height with a letter
-            [] k = 4 -> <<MINUS>> \o pre                                \* negative height
-            [] k = 5 -> TwoPow64 \o <<COLON, COLON>>                    \* height 2^64
-            [] k = 6 -> Dec(v.h) \o <<COLON, COLON, COLON, COLON>>)     \* separator twice
-    [] kind = "UnlockKey" ->
-         (CASE k = 1 -> SpecText(v.alg)                                 \* separator missing
-            [] k = 2 -> SpecText(v.alg) \o <<59>>                       \* ; for :
-            [] k = 3 -> <<QUOTE>> \o SpecText(v.alg) \o <<COLON>>        \* unterminated quote
-            [] k = 4 -> SpecText(v.alg) \o SpecText(v.alg) \o SpecText(v.alg) \o <<COLON>>)   \* over-long algorithm
-    [] kind \in {"pol-pk", "pol-h", "pol-opaque"} ->
-         (CASE k = 1 -> PolName(kind) \o <<LP>>                          \* 0x missing
-            [] k = 2 -> PolName(kind) \o <<LP, 48, 88>>                  \* 0X
-            [] k = 3 -> PolName(kind) \o <<LP, 49, 120>>                 \* 1x
-            [] k = 4 -> PolName(kind) \o <<LP>> \o L_0x \o L_0x)         \* 0x twice
-    [] OTHER ->                                                          \* unprefixed kinds: a prefix added
-         (CASE k = 1 -> <<104, COLON>>                                   \* h:
-            [] k = 2 -> L_0x
-            [] k = 3 -> L_ed25519
-            [] k = 4 -> <<97, 100, 100, 114, COLON>>)                    \* addr:
-PVText(v, k) ==
-  LET a == DecInt(v.v[1])  b == DecInt(v.v[2])  c == DecInt(v.v[3]) IN
-  CASE k = 1 -> a \o <<DOT>> \o b \o <<DOT>> \o c                        \* v missing
-    [] k = 2 -> <<86>> \o a \o <<DOT>> \o b \o <<DOT>> \o c              \* V
-    [] k = 3 -> <<LV>> \o a \o <<DOT>> \o b                              \* two components
-    [] k = 4 -> <<LV>> \o a \o <<DOT>> \o b \o <<DOT, 50, 53, 54>>       \* component 256
-    [] k = 5 -> <<LV>> \o a \o <<DOT, 120, DOT>> \o c                    \* letter component
-    [] k = 6 -> <<>>
-    [] k = 7 -> <<LV>> \o a \o <<DOT, DOT>> \o c                         \* empty component
-    [] k = 8 -> <<LV, MINUS>> \o a \o <<DOT>> \o b \o <<DOT>> \o c       \* negative component
-    [] k = 9 -> <<LV>> \o a \o <<DOT>> \o b \o <<DOT>>                   \* third component empty
-SPText(k) ==
-  CASE k = 1 -> [i \in 1..17 |-> 97]                                     \* seventeen letters
-    [] k = 2 -> <<QUOTE>> \o [i \in 1..16 |-> 97] \o <<32, QUOTE>>        \* seventeen bytes, quoted
-    [] k = 3 -> <<QUOTE, 97, 98, 99>>                                     \* unterminated quote
-    [] k = 4 -> <<QUOTE, BSL, 113, QUOTE>>                                \* unknown escape
-Corrupt(kind, v, op) ==
-  LET pre == Pre(kind, v)  hx == HexPart(kind, v)  post == Post(kind)  n == Len(hx) IN
-  CASE op.o = "pv"     -> PVText(v, op.i)
-    [] op.o = "sp"     -> SPText(op.i)
-    [] op.o = "subst"  -> pre \o Subst(hx, op.i, op.c) \o post
-    [] op.o = "swap"   -> pre \o Swap(hx, op.i) \o post
-    [] op.o = "upper"  -> pre \o UpperSeq(hx) \o post
-    [] op.o = "del"    -> pre \o Delete(hx, op.i) \o post
-    [] op.o = "del2"   -> pre \o Delete(Delete(hx, op.i), IF op.i = 1 THEN 1 ELSE n - 1) \o post
-    [] op.o = "ins"    -> pre \o Insert(hx, op.i, op.c) \o post
-    [] op.o = "ins2"   -> pre \o Insert(Insert(hx, op.i, op.c), op.i, 48) \o post
-    [] op.o = "empty"  -> <<>>
-    [] op.o = "prefix" -> BadPrefix(kind, v, op.i) \o hx \o post
 
 VARIABLES b, op
 Case == LET kind == Bases[b].kind  v == Bases[b].val
@@ -153,6 +43,7 @@ Spec == Init /\ [][Next]_<<b, op>>
 \* no case (other than for an address) lies in the accepted language of a different value
 Sane == LET kind == Bases[b].kind  v == Bases[b].val  txt == Corrupt(kind, v, op) IN
   /\ WellFormed(SpecKind(kind), IF SpecKind(kind) = "SpendPolicy" THEN [k |-> "pk", b |-> v.b] ELSE v)
+  /\ kind = "UnlockKey" => KeyTokSane(v, txt)
   /\ kind \in HashKinds \cup PrefixedKinds \cup {"Signature", "Address"} =>
        /\ Accepts(kind, Original(kind, v))
        /\ Decode(kind, Original(kind, v)) = (IF kind = "Address" THEN v.b \o v.ck ELSE v.b)
